@@ -4,6 +4,8 @@ Every value has a CONCRETE type on a path (the executor forks on every branch); 
 ints and bools may be a z3 term.  Integers are 64-bit bit-vectors holding the signed VALUE
 (not the tagged word); the 61-bit range is part of the path condition.
 """
+import os
+
 import z3
 
 MAX_INT = (1 << 60) - 1
@@ -82,6 +84,9 @@ class Infeasible(Exception):
     pass
 
 
+XCHECK_DIR = os.environ.get("NLV_XCHECK_DIR")
+
+
 class Engine:
     """One z3 solver; paths are explored by re-execution with a decision prefix."""
 
@@ -98,7 +103,24 @@ class Engine:
         r = self.solver.check(*assumptions)
         self.solver_s += time.time() - t0
         self.queries += 1
+        if XCHECK_DIR and self.queries in (2, 7, 40, 200) and r != z3.unknown:
+            self._dump(assumptions, r)
         return r
+
+    def _dump(self, assumptions, r):
+        """write the query as SMT-LIB2 for the second-solver cross-check (props.cross_check)"""
+        import os
+        try:
+            s2 = z3.Solver()
+            s2.add(self.solver.assertions())
+            for a in assumptions:
+                s2.add(a)
+            text = s2.to_smt2()
+            name = "q%d_%d_%d.smt2" % (os.getpid(), id(self) & 0xFFFFFF, self.queries)
+            with open(os.path.join(XCHECK_DIR, name), "w") as f:
+                f.write("; expected: %s\n(set-logic ALL)\n%s" % (r, text))
+        except Exception:
+            pass
 
     def explore(self, run, max_paths=4096):
         """run(ctx) -> result; yields (result, ctx) for every feasible path (solver state = path condition)."""
